@@ -110,6 +110,21 @@ func runRules(c *core.Ctx, rs []*rules.Rule) (obs []core.Obligation, err error) 
 				}
 			}()
 			o := r.Run(c)
+			// an obligation assigned to a property the rule is not registered for would never
+			// be counted by that property's check: a mistake of the checker, reported loudly
+			for _, ob := range o {
+				for _, p := range ob.Props {
+					ok := false
+					for _, rp := range r.Props {
+						if rp == p {
+							ok = true
+						}
+					}
+					if !ok {
+						panic(fmt.Sprintf("obligation %s is assigned to %s, for which rule %s is not registered", ob.Key, p, r.ID))
+					}
+				}
+			}
 			obs = append(obs, o...)
 		}()
 		if err != nil {
